@@ -51,10 +51,8 @@ def all_known(rt):
             ks += json.load(open(extra)).get("known", [])
         except Exception:
             pass
-    have = {(k["property"], k["tag"]) for k in ks}
-    for k in BUILTIN_KNOWN:
-        if (k["property"], k["tag"]) not in have:
-            ks.append(k)
+    # (BUILTIN_KNOWN is the text of the two findings this engine produced; both have been repaired in /repo and are
+    #  recorded as "fixed" in known_findings.json, so they are no longer excused)
     return ks
 
 
